@@ -19,7 +19,7 @@ EXPLANATION = ("Props/C12.v proves that every successful mutator leaves the tier
                "operations (which C07-C09 tie to their models).")
 TRUSTED = ["models: Textgrid/TgModel.v add_step, remove_step, replace_step, rename_step, tg_crop (written from data_classes/textgrid.py)",
            "OrderedDict insertion order and list.insert index semantics (py_insert)"]
-ASSUMPTIONS = ["tier names are generated non-empty and stripped"]
+ASSUMPTIONS = ["tier names are generated stripped; the empty name occurs as a renameTier argument"]
 NAMES = ["a", "b", "c", "d"]
 MODES = ["silence", "warning", "error"]
 
@@ -38,7 +38,8 @@ def _rand_op(rng, nslots):
     if u < 0.6:
         return {"op": "remove", "name": rng.choice(NAMES)}
     if u < 0.8:
-        return {"op": "rename", "old": rng.choice(NAMES), "new": rng.choice(NAMES)}
+        # "" is a name like any other (Praat's unnamed tier)
+        return {"op": "rename", "old": rng.choice(NAMES + [""]), "new": rng.choice(NAMES + ["", ""])}
     return {"op": "replace", "name": rng.choice(NAMES), "tier": _tier(rng, rng.choice(NAMES), rng.random() < 0.3), "mode": rng.choice(MODES)}
 
 
@@ -60,6 +61,8 @@ def generate(tier, rng):
     starts = [{"tiers": [], "min": None, "max": None},
               {"tiers": [], "min": None, "max": 15},          # only one bound given: the other is taken from the first tier
               {"tiers": [], "min": 3, "max": None},
+              {"tiers": [], "min": None, "max": 30},          # ... and the bound that was given lies beyond every tier: it stays
+              {"tiers": [], "min": -5, "max": None},
               {"tiers": [_tier(rng, "a"), _tier(rng, "b")], "min": 0, "max": 20},
               {"tiers": [_tier(rng, "b"), _tier(rng, "c"), _tier(rng, "a")], "min": 0, "max": 20}]
     allops = _all_ops(rng)
